@@ -12,6 +12,21 @@ use crate::transpose_util::transpose_in_place_square;
 
 mod transpose_util;
 
+/// Read-only re-exports of crate-private helpers for the external verification harness.
+#[cfg(feature = "verif_hooks")]
+pub mod verif_hooks {
+    /// # Safety
+    /// See `transpose_util::transpose_in_place_square`.
+    pub unsafe fn transpose_in_place_square<T>(
+        arr: &mut [T],
+        lb_stride: usize,
+        lb_size: usize,
+        x: usize,
+    ) {
+        crate::transpose_util::transpose_in_place_square(arr, lb_stride, lb_size, x)
+    }
+}
+
 pub const fn bits_u64(n: u64) -> usize {
     (64 - n.leading_zeros()) as usize
 }
